@@ -108,6 +108,7 @@ func (o *Out) Close(family string) {
 // Gates: verif-tagged yield points double as scheduler gates.
 type Gates struct {
 	mu     sync.Mutex
+	hits   map[string]int  // point -> times reached (parking or not)
 	mode   map[string]bool // point -> park?
 	parked []*parked
 	rec    *Rec
@@ -121,7 +122,10 @@ type parked struct {
 	n     int
 }
 
-func NewGates(rec *Rec) *Gates { return &Gates{mode: map[string]bool{}, rec: rec} }
+func NewGates(rec *Rec) *Gates { return &Gates{mode: map[string]bool{}, hits: map[string]int{}, rec: rec} }
+
+// Hits is the number of times a yield point has been reached so far.
+func (g *Gates) Hits(point string) int { g.mu.Lock(); defer g.mu.Unlock(); return g.hits[point] }
 
 // Install makes g the process-wide hook. Must be called inside the bubble.
 func (g *Gates) Install() {
@@ -159,6 +163,9 @@ func (g *Gates) at(point string, id any) {
 		point, id = "log:"+f, ""
 	}
 	g.mu.Lock()
+	if !strings.HasPrefix(point, "log:") {
+		g.hits[point]++
+	}
 	if !g.mode[point] || g.pass {
 		g.mu.Unlock()
 		return
